@@ -476,7 +476,10 @@ func readDnsMsgFromBufio(reader *bufio.Reader, timeout time.Duration, conn net.C
 	if length < 12 {
 		return nil, 0, fmt.Errorf("DNS message too small: %d bytes (min 12)", length)
 	}
-	if int(2+length) > reader.Size() {
+	// 2+length must not be computed in uint16: a declared length of 0xfffe or
+	// 0xffff would wrap to 0 or 1, pass the checks and panic on fullData[2:].
+	frameLen := 2 + int(length)
+	if frameLen > reader.Size() {
 		// Peek could never return such a frame; it would block until the
 		// deadline and leave the timeout stored in the bufio.Reader, from where
 		// it would later cut a relayed connection.
@@ -484,7 +487,7 @@ func readDnsMsgFromBufio(reader *bufio.Reader, timeout time.Duration, conn net.C
 	}
 
 	// Now read and consume the full message (length prefix + data)
-	fullData, err := reader.Peek(int(2 + length))
+	fullData, err := reader.Peek(frameLen)
 	if err != nil {
 		return nil, 0, err
 	}
@@ -502,12 +505,12 @@ func readDnsMsgFromBufio(reader *bufio.Reader, timeout time.Duration, conn net.C
 	}
 
 	// Consume the data by discarding it
-	_, err = reader.Discard(int(2 + length))
+	_, err = reader.Discard(frameLen)
 	if err != nil {
 		return nil, 0, err
 	}
 
-	return &msg, int(2 + length), nil
+	return &msg, frameLen, nil
 }
 
 // bufioConn wraps a net.Conn with a bufio.Reader, allowing buffered data
